@@ -556,6 +556,31 @@ Fixpoint fail_point (m : mode) (script : list pscript) : option (nat * err) :=
       end
   end.
 
+(* RetryDecision::IgnoreWriteError on a page fetch: the code logs a warning and stops fetching;
+   the stream then ends WITHOUT an error (see docs/C07.md, observation O1) *)
+Definition fault_ignored (f : fault) : bool :=
+  match f with FErr _ DIgnore => true | _ => false end.
+Definition page_ignored (m : mode) (ps : pscript) : bool :=
+  match m with
+  | MSession =>
+      let (pre, x) := split_retried (ps_faults ps) in
+      nodupb (ps_plan ps) &&
+      (List.length (filter fault_advances pre) <? List.length (ps_plan ps))%nat &&
+      match x with Some f => fault_ignored f | None => false end
+  | MConn => false
+  end.
+Fixpoint ignore_point (m : mode) (script : list pscript) : option nat :=
+  match script with
+  | [] => None
+  | ps :: rest =>
+      if page_ignored m ps then Some O
+      else if is_rows (ps_resp ps) && page_retried m ps && has_next (ps_resp ps)
+      then match ignore_point m rest with Some k => Some (S k) | None => None end
+      else None
+  end.
+Definition spec_truncated_stream (pages : list page) (k : nat) : list item :=
+  map IRow (concat (map fst (firstn k pages))) ++ [IEnd].
+
 (* ---- comparison helpers for the correspondence driver (decidable equalities) ------------ *)
 
 Fixpoint list_eqb {A} (eqb : A -> A -> bool) (a b : list A) : bool :=
@@ -622,7 +647,9 @@ Definition accept_drop (m : mode) (script : list pscript) (n : nat)
       is_prefix key_eqb obs_keys (map req_key allrq) &&
       Nat.leb (reqs_upto allrq k) (List.length obs_keys) &&
       Nat.leb (List.length obs_keys) (reqs_upto allrq (k + 2))
-  | _ => false
+  | SFail e =>                      (* the constructor failed: there is nothing to drop *)
+      list_eqb item_eqb obs_items_ [IErr e; IEnd] && list_eqb key_eqb obs_keys (map req_key rq0)
+  | SStuck => false
   end.
 
 (* the property itself as a predicate on observed outputs (used only after a mismatch):
